@@ -58,6 +58,12 @@ class OutlineBase(plumpy.WorkChain):
             idx = sum(1 for t in tr if t.startswith('p'))
             script = self.inputs['preds']
             val = script[idx] if idx < len(script) else False
+            style = self.inputs.get('pred_style')
+            if style == 'containers':
+                # predicates answering with what they found: a (possibly empty) list or string -- truth by length, no __bool__
+                val = (['todo'] if idx % 2 else 'yes') if val else ([] if idx % 2 else '')
+            elif style == 'objects':
+                val = _Found() if val else None
         else:
             idx = sum(1 for t in tr if t.startswith('s'))
             script = self.inputs['rets']
@@ -72,6 +78,7 @@ class OutlineBase(plumpy.WorkChain):
             self.ctx.log = []
             self.ctx.last = self.ctx.log
         self.ctx.last.append(name)
+        self.ctx._n = getattr(self.ctx, '_n', 0) + 1  # (a context key may have any name, also one with a leading underscore)
         if kind == 's' and self.inputs.get('midsave'):
             # the step saves the workchain from inside itself (e.g. an extra checkpoint under a tag); the saved state is not used
             plumpy.Bundle(self)
@@ -84,6 +91,10 @@ class OutlineBase(plumpy.WorkChain):
         if kind == 's' and self.inputs.get('emit'):
             self.out('o_%s_%d' % (name, idx), idx)
         return val
+
+
+class _Found:
+    """A plain object (always true, defines neither __bool__ nor __len__)."""
 
 
 def _mk(kind, i):
